@@ -35,14 +35,6 @@ def kvApply (k : KV) (op : KVOp) : KV :=
 
 def kvRun (k : KV) (ops : List KVOp) : KV := ops.foldl kvApply k
 
-/-- the invariant carried by every reachable state: the list passes validation and the cached degree
-is the one validation derives -/
-def KVInv (k : KV) : Prop := isValid k.v none = true ∧ k.deg = cnt k.v (k.v.headD 0) - 1
-
-theorem inv_of_mk (v : List Rat) (k : KV) (h : KV.mk? v none = .ok k) : KVInv k := by
-  obtain ⟨h1, h2, h3⟩ := mk?_ok v k h
-  exact ⟨by rw [h2]; exact h1, by rw [h2]; exact h3⟩
-
 /-- **C03 (construction).**  On separated knot values the constructor accepts exactly the well-formed
 lists, and stores the degree `multiplicity of the first value − 1`. -/
 theorem C03_mk_iff_WF (v : List Rat) (hsep : Separated v) :
